@@ -26,4 +26,10 @@ VARIANTS = [
     V("N-range-chained", O, "if min_relative_overlap < 0 or min_relative_overlap > 1:", "if not 0 <= min_relative_overlap <= 1:", None),
     V("N-is-in-clip-return-expr", O, "    if (end_time <= clip.start_time + minimum_overlap) or (\n        start_time >= clip.end_time - minimum_overlap\n    ):\n        return False\n\n    return True",
       "    return (end_time > clip.start_time + minimum_overlap) and (\n        start_time < clip.end_time - minimum_overlap\n    )", None),
+    # wave 6
+    V("converted-vertices-snapped(C05/R05.1)", "src/soundevent/geometry/conversion.py", "        return time_stamp_to_shapely(geom)", "        return shapely.set_precision(time_stamp_to_shapely(geom), 1e-9)", "C05/R05.1"),
+    V("is-in-clip-half-migrated", "src/soundevent/geometry/operations.py", "    start_time, _, end_time, _ = compute_bounds(geometry)\n\n    if (end_time <= clip.start_time + minimum_overlap) or (\n        start_time >= clip.end_time - minimum_overlap",
+      "    start_time, _, end_time, _ = compute_bounds(geometry)\n    start_time = start_time - clip.start_time\n    end_time = end_time - clip.start_time\n\n    if (end_time <= clip.start_time + minimum_overlap) or (\n        start_time >= clip.duration - minimum_overlap", "R12.5"),
+    V("N-is-in-clip-fully-migrated", "src/soundevent/geometry/operations.py", "    start_time, _, end_time, _ = compute_bounds(geometry)\n\n    if (end_time <= clip.start_time + minimum_overlap) or (\n        start_time >= clip.end_time - minimum_overlap",
+      "    start_time, _, end_time, _ = compute_bounds(geometry)\n\n    if (end_time <= clip.start_time + minimum_overlap) or (\n        start_time >= clip.start_time + clip.duration - minimum_overlap", None),
 ]
